@@ -56,6 +56,20 @@
 (* sites (norm_.., prior_..); every configuration is replayed on the triple  *)
 (* lattice (batch ranks 0..2, parameters and data broadcast against each   *)
 (* other) and element b is compared in VALUE with the non-batched replica. *)
+(*                                                                         *)
+(* MISSING OBSERVATIONS.  Family = "nan": the NaN policy                   *)
+(* (settings.observation_nan_policy) is a dimension of the replica         *)
+(* lattice.  "ignore" is the lattice without missing entries (every other  *)
+(* family); under "mask" and "fill" the targets of batch shape Y carry a   *)
+(* PATTERN: element y misses the positions miss[y] of its NObs points.     *)
+(* TLC enumerates the patterns per batch shape (built axis by axis, so     *)
+(* that they can vary along either batch axis or both) and classifies      *)
+(* them: no element misses anything / the same positions in every element  *)
+(* / different positions, one element complete / different positions,      *)
+(* every element incomplete.  Under "fill" the replica of y is the         *)
+(* non-batched object on the y-th slice with ITS OWN missing entries       *)
+(* deleted (NanNoCrossTalk: what is dropped from y depends on miss[y]       *)
+(* only); under "mask" the documented union over the whole batch.          *)
 (***************************************************************************)
 EXTENDS Shapes, TLC
 
@@ -64,13 +78,14 @@ CONSTANTS Dims,        \* axis sizes, {1, 2, 3}
           NPts, MPts,  \* rows of x1 / x2 used by the replay (4, 3)
           DFeat,       \* feature dimension (2)
           Family,      \* "triple" (batch-shape triples), "list" (member kinds of a model list), "objective" (configurations of the
-                       \*   objectives of gpytorch.mlls) or "both" (all of them: the generation run)
+                       \*   objectives of gpytorch.mlls), "nan" (patterns of missing observations) or "both" (all of them: the generation run)
           WithStruct,  \* BOOLEAN: carry the kernel-structure predictions in the case (only the runs that check / dump them pay for them)
           AllRows,     \* BOOLEAN: the structure predictions range over every row count of Rows (else: over the row counts the case is replayed with)
           CheckStructs,\* the structures of StructNames this run evaluates (the structure runs split them: initial states are computed by one thread)
+          NObs,        \* number of observations of one replica in the missing-observation family (5)
           MaxMembers,  \* longest model list (3)
           Variants,    \* rejected variants of the code the lattice must tell from the code (adequacy of the lattice), subset of
-                       \*   {"diag_own_batch", "fantasy_noise_carry", "norm_numel"}
+                       \*   {"diag_own_batch", "fantasy_noise_carry", "norm_numel", "nan_shared_mask"}
           CheckSites,  \* the sites whose alignment this run asserts
           Repaired     \* subset of {"rq_alpha", "const_kernel", "call_diag", "multitask", "obj_prior"}: transcribe the repaired arithmetic of
                        \* that site family instead of the arithmetic of the pinned commit (see checks/c08.py REPAIRED)
@@ -395,6 +410,61 @@ ListCase(kinds) == [kinds |-> kinds, noise |-> NoiseArg(kinds),
                     vgot |-> NoiseGot(kinds, Variants), vdeps |-> [op \in ListOps |-> ListDeps(kinds, op, Variants)],
                     hetero |-> Cardinality({kinds[i] : i \in 1..Len(kinds)}) >= 2]
 
+\* ---- missing observations: settings.observation_nan_policy ------------------------------------------
+\* The targets have shape Y \o <<NObs>>.  A pattern `miss` is the sequence, over the elements of Y in row-major order, of the sets of
+\* positions (1..NObs) whose observation is missing (NaN) in that element.  Policies: "ignore" does not look (the lattice without missing
+\* entries: every other family), "mask" (documented: a position missing in ONE batch element is masked for the COMPLETE batch),
+\* "fill" (fill in a dummy value, compute, filter later: element by element).
+NanPolicies == {"mask", "fill"}
+\* who carries the batch shape Y: hyperparameters and inputs ("both"), the hyperparameters only (shared inputs, batched targets: the
+\* independent-outputs idiom), the inputs only (shared hyperparameters)
+NanPlacements == {"both", "params", "data"}
+NanP(pl, Y) == IF pl = "data" THEN <<>> ELSE Y
+NanD(pl, Y) == IF pl = "params" THEN <<>> ELSE Y
+
+\* the patterns of a batch shape.  rank 0: one element (complete, one / two positions missing).  rank 1: every element independently complete /
+\* missing position 1 / missing position 3.  rank 2: element (i, j) misses a1[i] \cup a2[j], a1[i] \in {{}, {1}}, a2[j] \in {{}, {2}}: the
+\* pattern can vary along the first axis, along the last axis or along both.  Positions 4..NObs are always observed.
+ASSUME NObs >= 4
+NanAxisCands(r, k) == IF r = 1 THEN {{}, {1}, {3}} ELSE {{}, {k}}
+NanPatterns(Y) ==
+  IF Y = <<>> THEN {<<{}>>, <<{1}>>, <<{1, 3}>>}
+  ELSE IF Len(Y) = 1 THEN [1..Y[1] -> NanAxisCands(1, 1)]
+  ELSE {[q \in 1..BProd(Y) |-> LET y == BUnravel(q - 1, Y) IN a1[y[1] + 1] \cup a2[y[2] + 1]] :
+          a1 \in [1..Y[1] -> NanAxisCands(2, 1)], a2 \in [1..Y[2] -> NanAxisCands(2, 2)]}
+
+NanUnion(miss) == UNION {miss[q] : q \in DOMAIN miss}
+\* the classes of a pattern: what a reduction over the wrong axes can and cannot change
+NanClasses == {"none", "same", "one_clean", "different"}
+NanClass(miss) == LET S == {miss[q] : q \in DOMAIN miss}
+                  IN IF S = {{}} THEN "none" ELSE IF Cardinality(S) = 1 THEN "same" ELSE IF {} \in S THEN "one_clean" ELSE "different"
+\* the batch axes along which the pattern varies
+NanVary(Y, miss) == {k \in 1..Len(Y) : \E q1, q2 \in DOMAIN miss :
+                       LET y1 == BUnravel(q1 - 1, Y)
+                           y2 == BUnravel(q2 - 1, Y)
+                       IN (\A j \in 1..Len(Y) : j # k => y1[j] = y2[j]) /\ miss[q1] # miss[q2]}
+
+\* SEMANTICS: the observations the replica of element q must NOT see.  fill: its own missing entries and nothing else; mask: the union
+NanDropWant(pol, miss, q) == IF pol = "fill" THEN miss[q] ELSE NanUnion(miss)
+
+\* CODE-SHAPED: the places where the library decides which observations to drop, and what they read
+\*   mask: settings.observation_nan_policy._get_observed(t, event_shape) = ~any(isnan(t.reshape(-1, *event_shape)), dim=0): EVERY batch axis
+\*   fill: torch.isnan(t): element by element (t: train_labels in DefaultPredictionStrategy._mean_cache, mean_cache in exact_predictive_mean,
+\*         target / observations in _GaussianLikelihoodBase.expected_log_prob / log_marginal)
+\* variant "nan_shared_mask": a 'fill' branch that uses the helper of the 'mask' branch
+NanSites == {"mask/mean_cache", "mask/predictive_mean", "mask/exact_mll", "mask/expected_log_prob", "mask/log_marginal",
+             "fill/mean_cache", "fill/predictive_mean", "fill/expected_log_prob", "fill/log_marginal"}
+NanSitePol(s) == IF s \in {"mask/mean_cache", "mask/predictive_mean", "mask/exact_mll", "mask/expected_log_prob", "mask/log_marginal"}
+                 THEN "mask" ELSE "fill"
+NanDropCode(s, miss, q, V) == IF NanSitePol(s) = "mask" \/ "nan_shared_mask" \in V THEN NanUnion(miss) ELSE miss[q]
+
+NanCase(Y, pl, miss) ==
+  [nanY |-> Y, place |-> pl, P |-> NanP(pl, Y), D1 |-> NanD(pl, Y), miss |-> miss, class |-> NanClass(miss), vary |-> NanVary(Y, miss),
+   \* the expected observation: per policy, per element (row-major), the positions deleted from the replica's data
+   drop  |-> [pol \in NanPolicies |-> [q \in DOMAIN miss |-> NanDropWant(pol, miss, q)]],
+   code  |-> [s \in NanSites |-> [q \in DOMAIN miss |-> NanDropCode(s, miss, q, {})]],
+   vcode |-> [s \in NanSites |-> [q \in DOMAIN miss |-> NanDropCode(s, miss, q, Variants)]]]
+
 \* ---- the case carried by a state ---------------------------------------------------------------
 CaseRows(P, D1, D2) == ShCoRows(P, NPts, DFeat) \cup ShCoRows(D1, NPts, DFeat) \cup ShCoRows(D2, NPts, DFeat)
 \* n is the size of a batch axis of the case (an axis of an intermediate result has the size of an axis of P, D1 or D2)
@@ -432,8 +502,11 @@ ListConfigs == UNION {[1..r -> MemberKinds] : r \in 1..MaxMembers}
 \* Family = "both": the two families in one run (the generation run); IsTriple tells the states apart
 Init == \/ Family \in {"list", "both"} /\ \E kinds \in ListConfigs : c = ListCase(kinds)
         \/ Family \in {"objective", "both"} /\ \E o \in ObjConfigs : c = ObjCase(o)
+        \/ Family \in {"nan", "both"} /\ \E Y \in AllShapes, pl \in NanPlacements : \E miss \in NanPatterns(Y) :
+                                         (Y = <<>> => pl = "both") /\ c = NanCase(Y, pl, miss)
         \/ Family \in {"triple", "both"} /\ \E P \in AllShapes, D1 \in AllShapes, D2 \in AllShapes : c = Case(P, D1, D2)
-IsTriple == "P" \in DOMAIN c
+IsNan == "miss" \in DOMAIN c
+IsTriple == "P" \in DOMAIN c /\ ~IsNan
 IsList == "kinds" \in DOMAIN c
 IsObjective == "obj" \in DOMAIN c
 Next == UNCHANGED c
@@ -544,5 +617,36 @@ ObjectivesWellFormed ==
 NormVariantNeedsBatch ==
   (IsTriple /\ c.ok /\ ~WithStruct) =>
      \A cls \in ObjClasses : (c.vnorm[cls] # "ok") <=> ("norm_numel" \in Variants /\ BProd(NormBatch(cls, c.P, c.D1, c.D2)) >= 2)
+
+\* ---- missing observations ---------------------------------------------------------------------------------
+NanFillSites == {s \in NanSites : NanSitePol(s) = "fill"}
+\* every site drops from element q what the semantics says; the mask of a site is a function of the pattern of the WHOLE batch under 'mask'
+NanSitesAligned == IsNan => \A s \in NanSites, q \in DOMAIN c.miss : c.code[s][q] = c.drop[NanSitePol(s)][q]
+\* fill = independent replicas: what is dropped from element q depends on the missing entries of element q and on nothing else - stated as
+\* non-interference over every other pattern of the same batch shape that agrees with this one on element q (semantics and code-shaped sites)
+NanNoCrossTalk ==
+  IsNan => \A q \in DOMAIN c.miss, m2 \in NanPatterns(c.nanY) :
+             m2[q] = c.miss[q] => /\ NanDropWant("fill", m2, q) = c.drop["fill"][q]
+                                  /\ \A s \in NanFillSites : NanDropCode(s, m2, q, {}) = c.code[s][q]
+\* mask = the documented union: every element drops the same positions, and they are the positions missing in some element
+NanMaskIsUnion ==
+  IsNan => \A q \in DOMAIN c.miss : /\ c.drop["mask"][q] = NanUnion(c.miss)
+                                     /\ c.miss[q] \subseteq c.drop["mask"][q]
+                                     /\ \A i \in c.drop["mask"][q] : \E p \in DOMAIN c.miss : i \in c.miss[p]
+\* a 'fill' site that reduces over the batch (variant nan_shared_mask) is visible exactly where the patterns of two elements differ:
+\* the classes one_clean / different are the right ones to replay (none / same cannot tell it from the code)
+NanVariantNeedsDifferent ==
+  IsNan => \A s \in NanFillSites : (c.vcode[s] # c.drop["fill"]) <=> ("nan_shared_mask" \in Variants /\ c.class \in {"one_clean", "different"})
+\* every batch shape with two elements or more comes with a pattern of every class; a rank-2 batch with patterns that vary along the first
+\* axis only, along the last axis only and along both; some observation always survives the union
+NanClassesCovered ==
+  IsNan => LET Y == c.nanY
+               ps == NanPatterns(Y)
+           IN /\ c.miss \in ps /\ Len(c.miss) = BProd(Y) /\ c.class \in NanClasses
+              /\ NanUnion(c.miss) \subseteq 1..3 /\ NObs \notin NanUnion(c.miss)
+              /\ (BProd(Y) >= 2 => {NanClass(m) : m \in ps} = NanClasses)
+              /\ ((Len(Y) = 2 /\ Y[1] >= 2 /\ Y[2] >= 2) => {NanVary(Y, m) : m \in ps} = SUBSET {1, 2})
+              /\ ShBc2(c.P, c.D1) = Y
+MissingObservations == NanSitesAligned /\ NanNoCrossTalk /\ NanMaskIsUnion /\ NanVariantNeedsDifferent /\ NanClassesCovered
 
 =============================================================================
